@@ -126,15 +126,18 @@ def build_cmt(san="native"):
             _cc(["gcc", "-O2", "-g", "-fPIC", "-shared", "-DBLAKE3_TESTING", "-mavx512f", "-mavx512vl", "-Wl,-z,now", "-I", C] + srcs + ["-o", os.path.join(out, "libblake3.so")])
             _cc(["gcc", "-O2", "-g", "-Wall", "-I", C, os.path.join(CDRV, "cmt.c"), "-L", out, "-lblake3", "-Wl,-rpath," + out, "-lpthread", "-ldl", "-o", exe])
         else:
+            # tsan: instrumented; clang: the same static intrinsics build at -O1 without a sanitizer
+            # (results of kernels running on several threads at once, compared with the model)
+            sanflags = ["-fsanitize=thread"] if san == "tsan" else []
             objs = []
             for f in CORE_C:
                 o = os.path.join(out, f + ".o")
-                _cc(["clang", "-O1", "-g", "-fsanitize=thread", "-DBLAKE3_TESTING", "-I", C, "-c", os.path.join(C, f), "-o", o])
+                _cc(["clang", "-O1", "-g"] + sanflags + ["-DBLAKE3_TESTING", "-I", C, "-c", os.path.join(C, f), "-o", o])
                 objs.append(o)
             for f, fl in INTRIN:
                 o = os.path.join(out, f + ".o")
-                _cc(["clang", "-O1", "-g", "-fsanitize=thread", "-DBLAKE3_TESTING", "-I", C] + fl + ["-c", os.path.join(C, f), "-o", o])
+                _cc(["clang", "-O1", "-g"] + sanflags + ["-DBLAKE3_TESTING", "-I", C] + fl + ["-c", os.path.join(C, f), "-o", o])
                 objs.append(o)
-            _cc(["clang", "-O1", "-g", "-fsanitize=thread", "-I", C, os.path.join(CDRV, "cmt.c")] + objs + ["-lpthread", "-ldl", "-rdynamic", "-o", exe])
+            _cc(["clang", "-O1", "-g"] + sanflags + ["-I", C, os.path.join(CDRV, "cmt.c")] + objs + ["-lpthread", "-ldl", "-rdynamic", "-o", exe])
         _cache[key] = exe
         return exe
